@@ -3,7 +3,9 @@ package main
 import (
 	"fmt"
 	"go/ast"
+	"go/token"
 	"go/types"
+	"os"
 	"strings"
 
 	"golang.org/x/tools/go/cfg"
@@ -224,6 +226,9 @@ func ruleR06R07(c *Ctx) {
 		}
 		// leaf pointers with a pedigree: results of minimum/maximum, the pointer parameter of restoreKey
 		fl.walk(func(n ast.Node, fs *FactSet, stmt ast.Node, b *cfg.Block) {
+			if os.Getenv("ARTCHECK_DEBUG") == "walk" && u.Name == "alphaSortedTree.Insert" && n == stmt {
+				fmt.Fprintf(os.Stderr, "WALK %s b%d %v\n", m.pos(n.Pos()), b.Index, fs.describe())
+			}
 			switch x := n.(type) {
 			case *ast.CallExpr:
 				// ---- conversions
@@ -332,6 +337,9 @@ func ruleR06R07(c *Ctx) {
 						case isParam && propagated && u.Obj != nil:
 							c.r.ok("R06", key, m.pos(x.Pos()), "parameter passed on: precondition propagated to the callers of "+u.Name, props...)
 						default:
+							if os.Getenv("ARTCHECK_DEBUG") != "" {
+								fmt.Fprintf(os.Stderr, "R06 %s want=%s facts=%v\n", key, fs.canonTag(a), fs.describe())
+							}
 							c.r.bad("R06", key, m.pos(x.Pos()), f.Name()+" "+why+", but it is called with a reference that may be a leaf", props...)
 						}
 					}
@@ -507,37 +515,121 @@ func (c *Ctx) leafPedigree(u *FuncUnit, fs *FactSet, arg ast.Expr) string {
 			}
 		}
 	}
+	// an unsafe.Pointer parameter of a helper: every call site must hand over a leaf pointer
+	if id, ok := ast.Unparen(arg).(*ast.Ident); ok && u.Lit == nil && u.Decl != nil {
+		if pi := c.m.paramIndex(u, id); pi >= 0 && c.pedigreeDepth < 3 {
+			sites := c.callSitesOf(u)
+			if len(sites) == 0 {
+				return ""
+			}
+			c.pedigreeDepth++
+			defer func() { c.pedigreeDepth-- }()
+			leafV := c.m.LeafKind.Value
+			for _, s := range sites {
+				a := argFor(s.call, pi)
+				if a == nil {
+					return ""
+				}
+				var at *FactSet
+				c.e.flow(s.u).walk(func(n ast.Node, fs *FactSet, stmt ast.Node, b *cfg.Block) {
+					if n == ast.Node(s.call) && at == nil {
+						at = fs
+					}
+				})
+				if at == nil {
+					return ""
+				}
+				okSite := false
+				if psel, isSel := ast.Unparen(a).(*ast.SelectorExpr); isSel && psel.Sel.Name == "pointer" && c.isNodeRefType(info.TypeOf(psel.X)) {
+					if known, _ := at.tagOf(psel.X); (known != nil && *known == leafV) || c.leafByElimination(at, psel.X) {
+						okSite = true
+					}
+				} else if c.leafPedigree(s.u, at, a) != "" {
+					okSite = true
+				}
+				if !okSite {
+					return ""
+				}
+			}
+			return fmt.Sprintf("parameter of %s: each of its %d call sites passes the pointer of a reference known to be a leaf", u.Name, len(sites))
+		}
+	}
 	return ""
 }
 
 // pointeeKind returns the kind value that the static type behind a literal's pointer
 // expression denotes (leaf kind for leaf layouts), or -1.
 func (c *Ctx) pointeeKind(u *FuncUnit, ptr ast.Expr) int64 {
+	return c.pointeeKindDepth(u, ptr, 0)
+}
+
+type callSite struct {
+	u    *FuncUnit
+	call *ast.CallExpr
+}
+
+// callSitesOf lists the calls of a declared function or method anywhere in the library.
+func (c *Ctx) callSitesOf(target *FuncUnit) []callSite {
+	if c.sites == nil {
+		c.sites = map[*FuncUnit][]callSite{}
+		for _, u := range c.m.Units {
+			if u.Body == nil {
+				continue
+			}
+			ast.Inspect(u.Body, func(n ast.Node) bool {
+				if lit, ok := n.(*ast.FuncLit); ok && ast.Node(lit) != ast.Node(u.Lit) {
+					return false
+				}
+				if call, ok := n.(*ast.CallExpr); ok {
+					if cu := c.m.calleeUnit(call); cu != nil {
+						c.sites[cu] = append(c.sites[cu], callSite{u, call})
+					}
+				}
+				return true
+			})
+		}
+	}
+	return c.sites[target]
+}
+
+func (c *Ctx) pointeeKindDepth(u *FuncUnit, ptr ast.Expr, depth int) int64 {
 	info := c.m.Info
 	e := ast.Unparen(ptr)
+	if depth > 4 {
+		return -1
+	}
 	// unsafe.Pointer(x)
 	if call, ok := e.(*ast.CallExpr); ok {
 		if isConversion(info, call) && len(call.Args) == 1 {
-			return c.pointeeKind(u, call.Args[0])
+			return c.pointeeKindDepth(u, call.Args[0], depth+1)
 		}
-		// createLeaf(): a local closure returning unsafe.Pointer(&leaf{…})
-		if v := identVar(info, call.Fun); v != nil {
-			for x := u; x != nil; x = x.Parent {
-				if def := singleDef(info, x.Body, v); def != nil {
-					if fl, ok := ast.Unparen(def).(*ast.FuncLit); ok {
-						res := int64(-1)
-						ast.Inspect(fl.Body, func(n ast.Node) bool {
-							if r, ok := n.(*ast.ReturnStmt); ok && len(r.Results) == 1 {
-								res = c.pointeeKind(c.m.LitUnit[fl], r.Results[0])
-							}
-							return true
-						})
-						return res
-					}
-				}
+		// createLeaf(), newLeaf(…): a closure or helper whose every return is a pointer to one layout
+		if cu := c.m.calleeUnit(call); cu != nil {
+			rets, all := returnExprs(cu)
+			if !all {
+				return -1
 			}
+			res := int64(-1)
+			for i, r := range rets {
+				k := c.pointeeKindDepth(cu, r, depth+1)
+				if k == -1 || (i > 0 && k != res) {
+					return -1
+				}
+				res = k
+			}
+			return res
 		}
 		return -1
+	}
+	if ue, ok := e.(*ast.UnaryExpr); ok && ue.Op == token.AND {
+		if n := namedOf(info.TypeOf(ue.X)); n != nil {
+			if ki := c.m.kindByStruct(n); ki != nil {
+				return ki.Value
+			}
+			if c.m.isLeafType(n) {
+				return c.m.LeafKind.Value
+			}
+		}
 	}
 	t := info.TypeOf(e)
 	if t == nil {
@@ -551,6 +643,29 @@ func (c *Ctx) pointeeKind(u *FuncUnit, ptr ast.Expr) int64 {
 			if c.m.isLeafType(n) {
 				return c.m.LeafKind.Value
 			}
+		}
+	}
+	if id, ok := e.(*ast.Ident); ok {
+		// a local bound once
+		if d := c.m.resolveLocal(u, id); d != nil {
+			return c.pointeeKindDepth(u, d, depth+1)
+		}
+		// a parameter of a helper: every caller must pass the same layout
+		if pi := c.m.paramIndex(u, id); pi != -1 && u.Lit == nil {
+			sites := c.callSitesOf(u)
+			res := int64(-1)
+			for i, s := range sites {
+				a := argFor(s.call, pi)
+				if a == nil {
+					return -1
+				}
+				k := c.pointeeKindDepth(s.u, a, depth+1)
+				if k == -1 || (i > 0 && k != res) {
+					return -1
+				}
+				res = k
+			}
+			return res
 		}
 	}
 	return -1
